@@ -28,6 +28,9 @@ CONFIGS = {
     'K3': ['-std=gnu++17'] + SSE + ['-DNDEBUG'],
     # dynamic dispatch (x86_ifuncs wrappers)
     'K4': ['-std=gnu++17'] + AVX2 + ['-DNDEBUG', '-DSONIC_DYNAMIC_DISPATCH=1'],
+    # dynamic dispatch built for a portable (SSE4.2) baseline: the AVX2 kernels are still compiled (target attributes)
+    # and chosen at run time, while every compile-time ISA macro says SSE
+    'K8': ['-std=gnu++17'] + SSE + ['-DNDEBUG', '-DSONIC_DYNAMIC_DISPATCH=1'],
     # locked allocator
     'K5': ['-std=gnu++17'] + AVX2 + ['-DNDEBUG', '-DSONIC_LOCKED_ALLOCATOR'],
     # adaptive memory pool policy
